@@ -142,6 +142,8 @@ type unit struct {
 
 	spawn  bool // see daemon.go: `go f(args)` is the external call "go:f"
 	extObj bool // see daemon.go: a method called on a local that holds an answer of the outside world is "obj.<Method>" [x; ...]
+
+	chans bool // see chans.go: channels as tokens, channel operations / select as calls that leave the translation, go of a translated function, panic
 }
 
 type world struct {
@@ -210,6 +212,9 @@ func (w *world) goType(e ast.Expr) ty {
 		if w.cur.byteTok && txt == "[]byte" {
 			return ty{k: kTok, name: "[]byte"}
 		}
+	}
+	if t, ok := w.chanType(e); ok {
+		return t
 	}
 	switch x := e.(type) {
 	case *ast.Ident:
@@ -474,7 +479,7 @@ func (f *fnTr) pure(e ast.Expr, en env) bool {
 			if id, ok := x.Fun.(*ast.Ident); ok {
 				switch id.Name {
 				case "len", "int", "int64", "int32", "uint16", "uint32", "uint8", "byte", "uint64", "uint":
-					if id.Name == "len" && (isPixSelector(x.Args) || f.isByteTokIdent(x.Args, en) || f.isListTokIdent(x.Args, en)) {
+					if id.Name == "len" && (isPixSelector(x.Args) || f.isByteTokIdent(x.Args, en) || f.isListTokIdent(x.Args, en) || f.isChanArg(x.Args, en)) {
 						p = false // len(X.Pix), len of a byte-slice token: asked of the outside world
 					}
 					return true // (of a float operand: made impure by the operand itself)
@@ -496,6 +501,10 @@ func (f *fnTr) pure(e ast.Expr, en env) bool {
 			}
 		case *ast.IndexExpr, *ast.SliceExpr:
 			p = false
+		case *ast.UnaryExpr:
+			if x.Op == token.ARROW {
+				p = false // a receive (chans.go)
+			}
 		case *ast.CompositeLit:
 			p = false
 		case *ast.SelectorExpr:
@@ -692,6 +701,9 @@ func (f *fnTr) expr(e ast.Expr, en env, k func(val, env) string) string {
 	case *ast.CompositeLit:
 		return f.composite(x, en, k)
 	case *ast.UnaryExpr:
+		if x.Op == token.ARROW {
+			return f.chanRecv(x, en, k)
+		}
 		if x.Op == token.AND {
 			if cl, ok := x.X.(*ast.CompositeLit); ok {
 				return f.composite(cl, en, k)
@@ -1072,6 +1084,9 @@ func (f *fnTr) call(c *ast.CallExpr, en env, k func(val, env) string) string {
 					return k(val{"tt", ty{k: kUnknown}}, en)
 				}
 			case "make":
+				if code, ok := f.makeChan(c, en, k); ok {
+					return code
+				}
 				if len(c.Args) == 2 {
 					if t := f.w.goType(c.Args[0]); t.k == kHList {
 						return f.expr(c.Args[1], en, func(n val, en env) string {
@@ -1097,6 +1112,9 @@ func (f *fnTr) call(c *ast.CallExpr, en env, k func(val, env) string) string {
 				if code, ok := f.pixLen(c, en, k); ok {
 					return code
 				}
+				if code, ok := f.chanLen(c, en, k); ok {
+					return code
+				}
 				return f.expr(c.Args[0], en, func(v val, en env) string {
 					if v.t.k == kPixRow {
 						return k(val{v.code, ty{k: kInt}}, en) // the row's length was asked for when the row was taken
@@ -1118,6 +1136,14 @@ func (f *fnTr) call(c *ast.CallExpr, en env, k func(val, env) string) string {
 				})
 			case "copy":
 				return f.copyCall(c, en, k)
+			case "close":
+				if f.u.chans {
+					return f.chanClose(c, en, k)
+				}
+			case "panic":
+				if f.u.chans {
+					fail("panic(...) anywhere but as a statement of its own")
+				}
 			case "append":
 				if code, ok := f.appendBytes(c, en, k); ok {
 					return code
@@ -1522,7 +1548,14 @@ func (f *fnTr) block(items []item, en env, defers []deferred) string {
 		f.refuseDeferInLoop(s)
 		return f.block(rest, en, append(append([]deferred{}, defers...), deferred{s.Call}))
 	case *ast.ExprStmt:
+		if c, ok := isPanicStmt(s); ok && f.u.chans {
+			return f.goPanic(c, en, defers)
+		}
 		return f.expr(s.X, en, func(_ val, en env) string { return f.block(rest, en, defers) })
+	case *ast.SendStmt:
+		return f.sendStmt(s, rest, en, defers)
+	case *ast.SelectStmt:
+		return f.selectStmt(s, rest, en, defers)
 	case *ast.IncDecStmt:
 		op := token.ADD_ASSIGN
 		if s.Tok == token.DEC {
@@ -1533,6 +1566,9 @@ func (f *fnTr) block(items []item, en env, defers []deferred) string {
 	case *ast.AssignStmt:
 		return f.assign(s, rest, en, defers)
 	case *ast.DeclStmt:
+		if f.localConst(s) {
+			return f.block(rest, en, defers)
+		}
 		gd, ok := s.Decl.(*ast.GenDecl)
 		if !ok || gd.Tok != token.VAR {
 			fail("declaration")
@@ -1901,6 +1937,9 @@ func (f *fnTr) assign(s *ast.AssignStmt, rest []item, en env, defers []deferred)
 	// v, ok := x.(T)
 	if ta, ok := s.Rhs[0].(*ast.TypeAssertExpr); ok && len(s.Rhs) == 1 && len(s.Lhs) == 2 && f.u.outside {
 		return f.typeAssert(s, ta, en, func(en env) string { return f.block(rest, en, defers) })
+	}
+	if code, ok := f.recvOk(s, rest, en, defers); ok {
+		return code
 	}
 	// a, b := g(...)
 	if len(s.Rhs) == 1 && len(s.Lhs) > 1 {
@@ -2691,6 +2730,10 @@ var fnUnits = []*unit{
 	// the throttle's event sink (daemon.go): one D-Bus call per throttled incident
 	{name: "ThrottleEvents", dir: "throttle", files: []string{"throttled_event_recorder.go"},
 		skip: map[string]bool{}, outside: true, sender: true, extObj: true, noRecv: []string{"ThrottledEventRecorder"}},
+	// thermal-writer's two goroutines: the frame loop of handleConn and writer (chans.go); newThermalRaw, writeFrame and
+	// Builder.Close are the translated definitions of unit ThermalRaw
+	{name: "WriterLoop", dir: "cmd/thermal-writer", files: []string{"main.go"}, funcs: []string{"handleConn", "writer"},
+		imports: []string{"ThermalRaw"}, skip: map[string]bool{}, byteTok: true, outside: true, chans: true},
 }
 
 // ---------------------------------------------------------------------------------------
